@@ -41,8 +41,9 @@ if __name__ != "__main__":
 
 VERSIONS = {128: (6, 2, 0), 80: (5, 1, 60)}
 FUEL = 60
+GUARD = None               # does the checked tree carry repair C20-1 (read cycle -> MalformedInputError)?  probed
 CASE_TIMEOUT = 25.0        # a non-cyclic case that takes longer counts as a hang
-CYCLE_TIMEOUT = 6.0
+CYCLE_TIMEOUT = 4.0
 LANES = 4
 
 
@@ -254,7 +255,7 @@ DIRS = ["", "", "", "sub/", "inc/", "a/b/", "sub/deep/", "./", "sub/../"]
 
 def name_in_class(s):
     return (s != "" and re.fullmatch(r"[A-Za-z0-9_./-]+", s) is not None
-            and re.search(r"[0-9][A-Za-z\-]|\.[eE\-]", s) is None)
+            and re.search(r"[0-9][A-Za-z\-]|\.[eE\-]", s) is None and s.lower() != "c")
 
 
 def fresh_name(rng, used):
@@ -313,8 +314,10 @@ def build_file(rng, cards, depth, used, files, path, bt_of_card, opts):
     n = len(cards)
     maxr = 0 if depth >= 4 else (3 if depth == 0 else 2)
     r = 0
-    if maxr and (n >= 1 or depth == 0):
+    if maxr and (n >= 1 or depth == 0 or rng.random() < 0.1):
         r = rng.choice([0, 1, 1, 2, 3][: maxr + 2]) if depth else rng.choice([1, 1, 2, 2, 3])
+        if depth and n <= 1 and rng.random() < 0.6:
+            r = 0
         if opts.get("no_reads"):
             r = 0
     groups = [[] for _ in range(r + 1)]
@@ -550,7 +553,7 @@ def model_request(case, m):
             continue
         entries.append((key(posixpath.join(d, n)), file_text(fl)))
     fs = ",".join(hx(k) + "=" + (hx(v) or "-") for k, v in entries)
-    return "readall %d %d %s %s %s" % (case["W"], FUEL, hx(cwd), hx(top_arg), fs)
+    return "%s %d %d %s %s %s" % ("readallg" if GUARD else "readall", case["W"], FUEL, hx(cwd), hx(top_arg), fs)
 
 
 def parse_model(ans):
@@ -652,6 +655,10 @@ def oracle(case, res, m):
     if cyc:
         if syn["err"] == "ok":
             fails.append({"kind": "cycle-read-without-error"})
+        elif GUARD and syn["err"] not in ("MalformedInputError", "FileNotFoundError", "ParsingError"):
+            fails.append({"kind": "cycle-reported-as", "got": syn["err"]})
+        if GUARD and full.get("err") in (None, "ok"):
+            fails.append({"kind": "cycle-read-without-error-by-read_input", "got": full.get("err")})
         return fails
     if case.get("missing"):
         reached = any(n == case["missing"] for _, n in bfs_items(case))
@@ -757,12 +764,69 @@ def abs_paths(syn, cwd):
     return out
 
 
+CYCLE_CASE = {
+    "kind": "cycle", "W": 128, "title": "a file that reads itself", "message": None,
+    "top_blocks": [[{"lines": ["1 0 -1 imp:n=1"], "read": None}], [{"lines": ["1 so 5"], "read": None}],
+                   [{"lines": ["read file=cy2.i"], "read": "cy2.i"}]],
+    "files": {"cy2.i": {"items": [{"lines": ["nps 10"], "read": None}, {"lines": ["read file=cy2.i"], "read": "cy2.i"}],
+                        "tail": [], "final_newline": True, "eol": "\n"}},
+    "after": None, "top_eol": "\n", "topdir": "root", "top_mode": "abs", "idx": -1,
+}
+
+
+def probe_guard(scratch):
+    """which of the two drain loops does the checked tree have?  (a hang within the deadline = the old one)"""
+    global GUARD
+    m = materialise(CYCLE_CASE, os.path.join(scratch, "probe"))
+    m0 = materialise(without_cycles(CYCLE_CASE), os.path.join(scratch, "probe0"))
+    lane = Lane()
+    try:
+        # warm the worker up (interpreter start, import montepy) before the deadline of the cyclic read counts
+        lane.run({"id": -1, "cwd": m0["cwd"], "top": m0["top_arg"], "version": [6, 2, 0], "out": m0["out"],
+                  "twice": False, "full": True, "flat": None}, CASE_TIMEOUT)
+        res = lane.run({"id": 0, "cwd": m["cwd"], "top": m["top_arg"], "version": [6, 2, 0], "out": m["out"],
+                        "twice": False, "full": False, "flat": None}, CYCLE_TIMEOUT)
+    finally:
+        lane.stop()
+    GUARD = (not res.get("timeout")) and res.get("syn", {}).get("err") == "MalformedInputError"
+    return GUARD, res
+
+
+def without_cycles(case):
+    """the same tree with the read cards that close a cycle taken out"""
+    c = json.loads(json.dumps(case))
+    state = {}
+
+    def dfs(n):
+        state[n] = 1
+        f = c["files"].get(n)
+        if f:
+            keep = []
+            for it in f["items"]:
+                t = it.get("read")
+                if t and state.get(t) == 1:
+                    continue            # back edge
+                if t and t not in state:
+                    dfs(t)
+                keep.append(it)
+            f["items"] = keep
+        state[n] = 2
+    for b in range(3):
+        for it in c["top_blocks"][b]:
+            if it.get("read") and it["read"] not in state:
+                dfs(it["read"])
+    if c.get("kind") == "cycle":
+        c["kind"] = "plain"
+    return c
+
+
 # ---------------------------------------------------------------------------- one case, end to end
 def job_of(case, m, cid):
     cyc = has_cycle(case)
+    hang = cyc and not GUARD
     job = {"id": cid, "cwd": m["cwd"], "top": m["top_arg"], "version": list(VERSIONS[case["W"]]),
-           "out": m["out"], "twice": not cyc, "full": not cyc, "flat": m["flat"]}
-    if not cyc:
+           "out": m["out"], "twice": not hang, "full": not hang, "flat": m["flat"]}
+    if not hang:
         job["cwd2"] = m["cwd2"]
         job["top2"] = m["top2"]
     return job
@@ -776,7 +840,7 @@ def check_cases(cases, scratch, tag):
         m = materialise(case, base)
         ms.append(m)
         jobs.append(job_of(case, m, k))
-        tos.append(CYCLE_TIMEOUT if has_cycle(case) else CASE_TIMEOUT)
+        tos.append(CYCLE_TIMEOUT if (has_cycle(case) and not GUARD) else CASE_TIMEOUT)
     reqs = [model_request(c, m) for c, m in zip(cases, ms)]
     th_res = {}
 
@@ -893,7 +957,16 @@ def small_correspondences(ctx, n):
         ctx.cov["disagreements_checked"] += 1
         if a != "j" + hx(posixpath.join(x, y)):
             bad.append({"join": [x, y], "real": posixpath.join(x, y), "model": a})
-    stats["paths"] = len(paths_ne) + len(pairs_ne)
+    rp = [(rng.choice(["/w", "/w/d", "/"]), p_) for p_ in paths_ne]
+    ans3 = vlib.model_ask("ReadQ", ["realpath " + hx(c_) + " " + hx(p_) for c_, p_ in rp])
+    for (c_, p_), a in zip(rp, ans3):
+        ctx.cov["disagreements_checked"] += 1
+        want = os.path.normpath(os.path.join(c_, p_))
+        if want.startswith("//"):
+            want = want[1:]          # realpath collapses the leading double slash that normpath keeps
+        if a != "r" + hx(want):
+            bad.append({"realpath": [c_, p_], "real": want, "model": unhx(a[1:])})
+    stats["paths"] = len(paths_ne) + len(pairs_ne) + len(rp)
     return bad, stats, reqs[:40] + ["dirname " + hx(p) for p in paths_ne[:20]], a_name[:40] + ans2[:20]
 
 
@@ -917,6 +990,8 @@ def replay(ctx, path):
     scratch = f"/tmp/C20-replay-{os.getpid()}"
     try:
         ok, _ = vlib.coq_make(["Model/ReadQ.vo"])
+        os.makedirs(scratch, exist_ok=True)
+        probe_guard(scratch)
         corr, fails, res, model = case_fails(case, scratch, "r")
     finally:
         shutil.rmtree(scratch, ignore_errors=True)
@@ -928,11 +1003,18 @@ def replay(ctx, path):
     return 0
 
 
+def tlog(t0, what):
+    if os.environ.get("C20_TIMING"):
+        sys.stderr.write("[C20 %.1fs] %s\n" % (time.time() - t0, what))
+
+
 def run(ctx):
+    t0 = time.time()
     quick = ctx.tier == "quick"
     n_trees = 170 if quick else 4000
     n_small = 400 if quick else 6000
     ctx.prove()
+    tlog(t0, "proved")
     ok, log = vlib.coq_make(["Model/ReadQ.vo"])
     if not ok:
         ctx.broken_obligations.append({"obligation": "Model/ReadQ.vo builds", "detail": log[-800:]})
@@ -944,11 +1026,17 @@ def run(ctx):
             "top_mode": {"abs": 0, "rel": 0}, "W": {80: 0, 128: 0}, "flat_compared": 0, "cyclic": 0,
             "hangs": 0, "flatten_model_compared": 0, "reads_in_block": {0: 0, 1: 0, 2: 0}}
     try:
+        vlib.model_ask("ReadQ", ["dirname 2f"])       # builds the extracted binary
+        tlog(t0, "model binary")
+        guard, pres = probe_guard(scratch)
+        tlog(t0, "guard probed: %s" % guard)
+        dist["cycle_guard_present"] = bool(guard)
         # ---- small correspondences
         bad, sstats, xreqs, xans = small_correspondences(ctx, n_small)
         if bad:
             ctx.broken_obligations.append({"obligation": "correspondence ReadInput / os.path vs ReadQ (classify_lines, "
                                            "is_read_input, dirname, path_join)", "detail": {"n": len(bad), "first": bad[0]}})
+        tlog(t0, "small correspondences")
         # ---- trees
         corpus = load_corpus()
         cases = list(corpus)
@@ -1001,7 +1089,8 @@ def run(ctx):
                     def still(cand, kind=first["kind"]):
                         _, fl, _, _ = case_fails(cand, scratch, "sh")
                         return any(f["kind"] == kind for f in fl)
-                    small = shrink(case, scratch, still, budget=12 if quick else 30) if first["kind"] != "worker-error" else case
+                    small = case if first["kind"] in ("worker-error", "read-hangs") else \
+                        shrink(case, scratch, still, budget=12 if quick else 30)
                     _, fl2, res2, _ = case_fails(small, scratch, "sh")
                     fl2 = [f for f in fl2 if f["kind"] == first["kind"]] or fails
                     ctx.fail({"kind": fl2[0]["kind"], "case": small, "detail": fl2[0], "has_cycle": has_cycle(small),
@@ -1014,6 +1103,7 @@ def run(ctx):
                     break
             if len(ctx.violations) >= 3:
                 break
+        tlog(t0, "trees")
         # ---- Coq's flatten on the cards == the flattening used by the oracle
         fl_cases = [c for c in cases if in_flatten_domain(c)][: (60 if quick else 1500)]
         fl_reqs = []
@@ -1055,9 +1145,11 @@ def run(ctx):
             # lesson (ii): the property oracle on the shrunk case before giving up
             for f in fl:
                 ctx.fail({"kind": f["kind"], "case": small, "detail": f, "has_cycle": has_cycle(small)})
+        tlog(t0, "flatten tie")
         nx, xbad = vlib.vm_crosscheck("ReadQ", all_reqs, all_ans, sample=40 if quick else 200, seed=ctx.seed)
         if xbad:
             ctx.broken_obligations.append({"obligation": "extraction cross-check ReadQ", "detail": xbad[:2]})
+        tlog(t0, "vm crosscheck")
         # ---- committed findings
         for fd in ctx.findings:
             if fd.get("status") == "open" and fd.get("replay"):
